@@ -24,7 +24,7 @@ BUDGET = {"quick": 200, "thorough": 900}
 JOB_TIMEOUT = 120
 MINIMISE_S = {"quick": 40, "thorough": 120}
 RULE = ("cases = seeded circuits (1-40 commands, 2-8 modes; gates, 2-mode gates in both mode orders, Fock/homodyne "
-        "measurements, preparations, feed-forward gates, New/Del) x sorter schedules (native networkx, seeded random, "
+        "measurements incl. threshold detectors, preparations, feed-forward gates, New/Del; optionally registers holding values of an earlier run, a foreign circuit first, one kept compiler object) x sorter schedules (native networkx, seeded random, "
         "adversarial far/near, all choice sequences when <= cap); a (circuit, function, schedule) triple is non-trivial "
         "iff the sorter met at least one decision with >= 2 legal candidates (DAG with >= 2 linear extensions); "
         "distinct = distinct sha256(circuit, function, choice sequence)")
